@@ -143,6 +143,13 @@ class IFunc:
 
 
 def _has_yield(node):
+    r = getattr(node, '_pysym_has_yield', None)
+    if r is None:
+        r = node._pysym_has_yield = _has_yield_uncached(node)
+    return r
+
+
+def _has_yield_uncached(node):
     """does this function body contain yield (not counting nested functions)?"""
     todo = list(node.body) if isinstance(node.body, list) else [node.body]
     while todo:
@@ -575,10 +582,10 @@ class Interp:
 
     def st(self, s, env):
         self.nodes_executed += 1
-        m = getattr(self, 'st_' + type(s).__name__, None)
+        m = _ST.get(type(s))
         if m is None:
             raise HarnessError('statement not modelled: %s' % ast.dump(s)[:100])
-        return m(s, env)
+        return m(self, s, env)
 
     def st_Expr(self, s, env):
         self.ev(s.value, env)
@@ -921,10 +928,10 @@ class Interp:
 
     def ev(self, e, env):
         self.nodes_executed += 1
-        m = getattr(self, 'ev_' + type(e).__name__, None)
+        m = _EV.get(type(e))
         if m is None:
             raise HarnessError('expression not modelled: %s' % ast.dump(e)[:100])
-        return m(e, env)
+        return m(self, e, env)
 
     def ev_Constant(self, e, env):
         return e.value
@@ -1281,6 +1288,8 @@ class Interp:
 
 
 _OPAQUE_FMT = object()
+_ST = {getattr(ast, n[3:]): f for n, f in vars(Interp).items() if n.startswith('st_') and hasattr(ast, n[3:])}
+_EV = {getattr(ast, n[3:]): f for n, f in vars(Interp).items() if n.startswith('ev_') and hasattr(ast, n[3:])}
 
 
 def _first_param(env):
